@@ -79,6 +79,18 @@ FAMILIES = {
                   ("a", ""), ("a", "AB"), ("a", ["A"])],
         "gets": [7, "7", 8, 9, 10, 11],
     },
+    # captured fields may contain '|' and an optional field may hold the text "None" (any encoding of a line's
+    # groups into a version string has to keep these apart)
+    "pipes": {
+        "re": r"(?P<id>[a-c]+);(?P<x>[a-z0-9|]*);(?P<y>[a-z0-9|]*)(?:;(?P<z>None|[a-z]+))?",
+        "ign": r"#.*",
+        "sid": ("id", [], False),
+        "vars": [("x", "x", [], False, False), ("y", "y", [], False, False), ("z", "z", [], False, False)],
+        "lines": ["a;r|7;c", "a;r;7|c", "a;r;c", "a;r;c;None", "b;|;", "b;;|", "b;|;|", "a;r|7|c;", "a;;r|7|c", "c;x;y;none",
+                  "c;x;y", "c;x|;y;None", "c;x;|y", "#c", "bad", "b;;;None", "b;;"],
+        "finds": [("x", "r|7"), ("x", "r"), ("y", "c"), ("y", "7|c"), ("z", "None"), ("z", None), ("x", "|"), ("y", "")],
+        "gets": ["a", "b", "c"],
+    },
     # transform_none_value with a chain that cannot take None (AttributeError); unhashable system id (TypeError)
     "raising": {
         "re": r"(\w+)=(\w+)?(/\w+)?",
@@ -293,6 +305,83 @@ class Sandbox:
 SB = Sandbox()
 
 
+class ParseTap:
+    """`open` as seen by vinegar.data_source.text_file (injected into the module namespace, like the fakes of the
+    TFTP harness): normally the builtin; when armed, the returned file object performs ONE pending edit of the
+    file while it is being parsed - after the first line has been handed to the parser ("first_line"; small
+    files are completely in the decoder's buffer by then) or when the with-block is left ("exit"), i.e. after
+    the load and before _update_data returns."""
+    def __init__(self):
+        self.pending = None
+
+    def arm(self, fsx, mode, when):
+        # An in-place overwrite that makes the file LONGER while it is being iterated would be read as a mix of
+        # old head and new tail (a torn read, outside the sequential histories of the property): such an edit is
+        # injected at the end of the load instead.  Renames, truncations and same-length overwrites are safe early.
+        if when == "first_line" and mode == "inplace_restore" and fsx[0] != "missing":
+            p = SB.path()
+            new_len = len(fsx[1].encode("utf-8")) if fsx[0] == "text" else 8
+            if not os.path.exists(p) or new_len > os.path.getsize(p):
+                when = "exit"
+        self.pending = (fsx, mode, when)
+
+    def fire(self):
+        if self.pending is not None:
+            fsx, mode, _when = self.pending
+            self.pending = None
+            SB.apply(fsx, mode)
+
+    def open(self, *a, **kw):
+        fh = open(*a, **kw)
+        if self.pending is None:
+            return fh
+        return _TappedFile(fh, self)
+
+
+class _TappedFile:
+    def __init__(self, fh, tap):
+        self.fh, self.tap = fh, tap
+
+    def __enter__(self):
+        self.fh.__enter__()
+        return self
+
+    def __exit__(self, *exc):
+        self.tap.fire()
+        return self.fh.__exit__(*exc)
+
+    def __iter__(self):
+        early = self.tap.pending is not None and self.tap.pending[2] == "first_line"
+        for line in self.fh:
+            yield line
+            if early:
+                self.tap.fire()
+
+    def read(self, *a):
+        r = self.fh.read(*a)
+        if self.tap.pending is not None and self.tap.pending[2] == "first_line":
+            self.tap.fire()
+        return r
+
+    def __getattr__(self, name):
+        return getattr(self.fh, name)
+
+
+TAP = ParseTap()
+TF.open = TAP.open
+
+
+def primitive_steps(hist):
+    """("cedit", call, fstate, mode, when) = the call, with the edit happening while the call parses the file
+    (or right after the call if it does not parse): for the model the call followed by the edit"""
+    for s in hist:
+        if s[0] == "cedit":
+            yield s[1]
+            yield ("edit", s[2], s[3])
+        else:
+            yield s
+
+
 def call_source(src, step):
     try:
         if step[0] == "get":
@@ -356,6 +445,8 @@ class C14(Check):
             stt = self.same_size_variant(f, rng, cur)
         if stt is None:
             stt = self.random_state(f, rng)
+        if rng.random() < 0.2:
+            return ("cedit", self.random_call(f, rng), stt, mode, rng.choice(["first_line", "exit"]))
         return ("edit", stt) if mode == "replace" else ("edit", stt, mode)
 
     def random_call(self, f, rng):
@@ -413,7 +504,7 @@ class C14(Check):
                    "init": ("text", txt), "hist": [("get", "a.d"), ("get", "b.d")]}
         # 2b. edits that keep parts of the stat version: same-size in-place rewrite with restored mtime (only ctime
         #     changes), same size + same mtime on a new inode, different size with restored mtime
-        for fam in list(FAMILIES)[:3]:
+        for fam in list(FAMILIES)[:4]:
             f = FAMILIES[fam]
             bat = self.battery(f)
             for fl in self.flags():
@@ -432,12 +523,45 @@ class C14(Check):
                         h.extend(rng.sample(bat, 3))
                     case["hist"] = h
                     yield case
+        # 2c. an edit injected while the long-lived source parses the file (atomic rename and in place, at the first
+        #     line and at the end of the load); the following calls must see the new content
+        for fam in list(FAMILIES)[:4]:
+            f = FAMILIES[fam]
+            bat = self.battery(f)
+            for fl in self.flags():
+                if not fl["cache"] and rng.random() < 0.8:
+                    continue
+                for mode in ("replace", "inplace_restore"):
+                    for when in ("first_line", "exit"):
+                        if quick and rng.random() < 0.5:
+                            continue
+                        cur = ("text", self.contents(f, rng, rng.choice([1, 2, 3, 4])))
+                        nxt = (self.same_size_variant(f, rng, cur) if mode != "replace" and rng.random() < 0.6 else None) \
+                            or self.random_state(f, rng)
+                        h = [] if rng.random() < 0.5 else [rng.choice(bat), ("edit", cur, "replace")]
+                        h.append(("cedit", rng.choice(bat), nxt, mode, when))
+                        h.extend(rng.sample(bat, 4))
+                        yield dict(fl, fam=fam, init=cur, hist=h, omit=rng.random() < 0.5)
+        # 2d. rewrites between lines whose captured groups differ only in where a '|' falls, and between an
+        #     unmatched optional group and the text "None": the data changes, so must the version
+        f = FAMILIES["pipes"]
+        twins = [("a;r|7;c", "a;r;7|c"), ("a;r;c", "a;r;c;None"), ("b;|;", "b;;|"), ("a;r|7|c;", "a;;r|7|c"),
+                 ("c;x|;y;None", "c;x;|y"), ("b;;;None", "b;;"), ("a;r|7;c", "a;r|7|c;")]
+        for (l1, l2) in twins:
+            for (x, y) in ((l1, l2), (l2, l1)):
+                for cache in (True, False):
+                    for eol in ("\n", ""):
+                        sid = x.split(";")[0]
+                        yield {"fam": "pipes", "cache": cache, "ffm": False, "mis": "warn", "dup": "warn", "omit": cache,
+                               "init": ("text", "#c\n" + x + eol),
+                               "hist": [("get", sid), ("edit", ("text", y + eol + ("" if eol else "\n") + "c;x;y\n")), ("get", sid),
+                                        ("find", "x", "r|7")]}
         # 3. random histories: <= 6 edits interleaved with calls
         n = 5000 if quick else 60000
         fams = list(FAMILIES)
         flags = list(self.flags())
         for _ in range(n):
-            fam = rng.choice(fams[:3]) if rng.random() < 0.92 else "raising"
+            fam = rng.choice(fams[:4]) if rng.random() < 0.92 else "raising"
             f = FAMILIES[fam]
             case = dict(rng.choice(flags), fam=fam, omit=rng.random() < 0.5)
             if fam == "raising" and rng.random() < 0.5:
@@ -451,7 +575,7 @@ class C14(Check):
                 for _c in range(rng.choice([0, 1, 1, 2, 3])):
                     h.append(self.random_call(f, rng))
                 h.append(self.random_edit(f, rng, cur))
-                cur = h[-1][1]
+                cur = h[-1][2] if h[-1][0] == "cedit" else h[-1][1]
             for _c in range(rng.choice([1, 2, 3])):
                 h.append(self.random_call(f, rng))
             case["hist"] = h
@@ -467,6 +591,17 @@ class C14(Check):
             if stp[0] == "edit":
                 SB.apply(stp[1], stp[2] if len(stp) > 2 else "replace")
                 continue
+            if stp[0] == "cedit":
+                # the fresh source answers first (file still unchanged), then the long-lived source with the edit
+                # injected into its parse; if it did not parse at all the edit happens right after the call
+                b = call_source(TF.get_instance(make_config(c, path)), stp[1])
+                TAP.arm(stp[2], stp[3], stp[4])
+                try:
+                    a = call_source(src, stp[1])
+                finally:
+                    TAP.fire()
+                out.append([a, b])
+                continue
             a = call_source(src, stp)
             b = call_source(TF.get_instance(make_config(c, path)), stp)
             out.append([a, b])
@@ -476,7 +611,7 @@ class C14(Check):
     def line(self, c, obs):
         f = fam_of(c)
         famkey = (c["fam"], bool(c.get("alt")))
-        states = [c["init"]] + [s[1] for s in c["hist"] if s[0] == "edit"]
+        states = [c["init"]] + [s[1] for s in primitive_steps(c["hist"]) if s[0] == "edit"]
         lines = []
         seen = set()
         for stt in states:
@@ -512,7 +647,7 @@ class C14(Check):
             ver += 1
             return [ver, enc_fstate(stt)]
         init = fs_sx(c["init"])
-        for stp in c["hist"]:
+        for stp in primitive_steps(c["hist"]):
             if stp[0] == "edit":
                 v, fx = fs_sx(stp[1])
                 steps.append([0, v, fx])
@@ -526,13 +661,13 @@ class C14(Check):
         return tobytes(obs)
 
     def nontrivial(self, c, obs):
-        edits = [i for i, s in enumerate(c["hist"]) if s[0] == "edit"]
+        edits = [i for i, s in enumerate(c["hist"]) if s[0] in ("edit", "cedit")]
         if not edits or edits[0] == len(c["hist"]) - 1:
             return None
         f = fam_of(c)
         rx = re.compile(f["re"])
         ok = False
-        for stt in [c["init"]] + [s[1] for s in c["hist"] if s[0] == "edit"]:
+        for stt in [c["init"]] + [s[1] for s in primitive_steps(c["hist"]) if s[0] == "edit"]:
             if stt[0] == "text" and sum(1 for ln in _SPLIT.split(stt[1]) if rx.fullmatch(ln)) >= 2:
                 ok = True
         if not ok:
@@ -544,7 +679,8 @@ class C14(Check):
                 "config": {k: c[k] for k in ("cache", "ffm", "mis", "dup")}, "defaults_omitted": bool(c.get("omit")),
                 "regular_expression": fam_of(c)["re"], "regular_expression_ignore": fam_of(c)["ign"],
                 "system_id": repr(fam_of(c)["sid"]), "variables": [repr(v) for v in fam_of(c)["vars"]],
-                "init": list(c["init"]), "hist": [list(s) if s[0] != "edit" else ["edit", list(s[1])] + list(s[2:]) for s in c["hist"]]}
+                "init": list(c["init"]), "hist": [(["call-with-edit-during-parse", list(s[1]), list(s[2]), s[3], s[4]] if s[0] == "cedit" else
+                                                   list(s) if s[0] != "edit" else ["edit", list(s[1])] + list(s[2:])) for s in c["hist"]]}
 
     def shrink(self, c):
         h = c["hist"]
@@ -565,6 +701,9 @@ class C14(Check):
             if stp[0] == "edit":
                 for s2 in smaller(stp[1]):
                     yield dict(c, hist=h[:i] + [("edit", s2) + tuple(stp[2:])] + h[i + 1:])
+            if stp[0] == "cedit":
+                for s2 in smaller(stp[2]):
+                    yield dict(c, hist=h[:i] + [("cedit", stp[1], s2) + tuple(stp[3:])] + h[i + 1:])
         if c["init"][0] != "missing":
             yield dict(c, init=("missing",))
 
